@@ -96,6 +96,60 @@ func runLateWrong(c scenario, scale int) *rp.Fail {
 	return nil
 }
 
+// tcp-peer-holds-connection: the TCP controller answers in time and then keeps the connection open for longer than the timeout,
+// whatever the client does with its side. The call has returned with the reply; its socket and whatever goroutines it started
+// are gone within the settling time - not when the peer finally closes, and not when the timeout would have expired.
+func runPeerHolds(c scenario, scale int) *rp.Fail {
+	T := time.Duration(c.TimeoutMs*scale) * time.Millisecond
+	f := farm.New()
+	defer f.Close()
+	ip := [4]byte{127, 0, 8, 8}
+	e, err := f.TCP(ip, 0, farm.ScriptTCP(func(r farm.Received) []farm.Action {
+		return []farm.Action{{Data: reply(r.Data), Hold: T + 3*time.Second}}
+	}))
+	if err != nil {
+		return nil
+	}
+	serial := uint32(405419896)
+	cfg := hook.ClientCfg{TimeoutMs: int(T / time.Millisecond), BindIP: [4]byte{127, 0, 0, 1}, Debug: c.Debug,
+		Devices: []hook.DeviceCfg{{Serial: serial, HasAddr: true, IP: ip, Port: e.Addr.Port(), Protocol: "tcp"}}}
+	if c.ReplyPct != 0 { // (used as the flag 'fixed bind port' here)
+		p, err := farm.FreePort(cfg.BindIP)
+		if err != nil {
+			return nil
+		}
+		cfg.BindPort = p
+	}
+	u := hook.Real(cfg)
+	socketsBefore := farm.Sockets()
+	goroutinesBefore, _ := farm.LibraryGoroutines()
+	t0 := time.Now()
+	res := api.Invoke(u, call(c.Op, serial))
+	if res.Panic != nil || res.Err != nil {
+		return rp.Failf("tcp-peer-holds-connection/call-failed", "%s failed although the controller answered at once: %v %v", c.Op, res.Err, res.Panic)
+	}
+	if el := time.Since(t0); el > T/2 {
+		return rp.Failf("tcp-peer-holds-connection/waited", "%s returned after %v although the reply came at once (timeout %v)", c.Op, el, T)
+	}
+	// the controller's side of the connection is still open (one descriptor of this process); everything of the client is gone
+	var s, g int
+	var stacks string
+	for deadline := time.Now().Add(1500 * time.Millisecond); ; time.Sleep(10 * time.Millisecond) {
+		s = farm.Sockets()
+		g, stacks = farm.LibraryGoroutines()
+		if (s <= socketsBefore+1 && g <= goroutinesBefore) || time.Now().After(deadline) {
+			break
+		}
+	}
+	if g > goroutinesBefore {
+		return rp.Failf("resources/goroutine-leak", "1.5 s after %s returned (TCP, fixed bind port: %v, the controller still holds its side of the connection open) %d library goroutine(s) are running, %d before the call:\n%s", c.Op, cfg.BindPort != 0, g, goroutinesBefore, stacks)
+	}
+	if s > socketsBefore+1 {
+		return rp.Failf("resources/socket-leak", "1.5 s after %s returned (TCP, fixed bind port: %v, the controller still holds its side of the connection open) the process has %d socket descriptors; %d before the call plus the controller's side of the connection", c.Op, cfg.BindPort != 0, s, socketsBefore)
+	}
+	return nil
+}
+
 func runScenario(c scenario, scale int) *rp.Fail {
 	T := time.Duration(c.TimeoutMs*scale) * time.Millisecond
 	serial := uint32(405419896)
@@ -163,6 +217,8 @@ func runScenario(c scenario, scale int) *rp.Fail {
 		return runSendFails(c, scale)
 	case "late-wrong-reply":
 		return runLateWrong(c, scale)
+	case "tcp-peer-holds-connection":
+		return runPeerHolds(c, scale)
 	}
 	u := hook.Real(cfg)
 	t0 := time.Now()
@@ -310,7 +366,7 @@ func runSendFails(c scenario, scale int) *rp.Fail {
 }
 
 func checkScenario(c scenario) *rp.Fail {
-	if c.Kind == "port-released" || c.Kind == "send-fails" || c.Kind == "late-wrong-reply" {
+	if c.Kind == "port-released" || c.Kind == "send-fails" || c.Kind == "late-wrong-reply" || c.Kind == "tcp-peer-holds-connection" {
 		ev.Case("scenario/"+c.Kind, true, fmt.Sprintf("%+v", c))
 	} else {
 		ev.Case(fmt.Sprintf("scenario/%s/reply-%s", c.Kind, map[bool]string{true: "in-time", false: "after-deadline"}[c.ReplyPct <= 80]), true, fmt.Sprintf("%+v", c))
@@ -346,6 +402,7 @@ func sweepScenarios(yield func(scenario) bool) {
 	for i, path := range []string{"udp", "tcp", "broadcast"} {
 		cases = append(cases, scenario{Kind: "late-wrong-reply", Op: []string{"GetTime", "GetStatus", "OpenDoor"}[i], Path: path, TimeoutMs: 600, ReplyPct: 85, Debug: i == 2})
 	}
+	cases = append(cases, scenario{Kind: "tcp-peer-holds-connection", Op: "GetTime", TimeoutMs: 4000, ReplyPct: 1}, scenario{Kind: "tcp-peer-holds-connection", Op: "OpenDoor", TimeoutMs: 4000, ReplyPct: 0, Debug: true})
 	if ev.Thorough() {
 		for i, path := range []string{"udp", "tcp", "broadcast"} {
 			cases = append(cases, scenario{Kind: "late-wrong-reply", Op: []string{"PutCard", "GetTime", "GetCardByID"}[i], Path: path, TimeoutMs: 1500, ReplyPct: 93})
